@@ -1,6 +1,12 @@
 import FcpptProofs.C06.Tactics
+/-!
+`c06_trunc`: unfolds `truncation_check<Dest>(Source)` together with every helper the source splits it into
+(the `detail::` overloads, `cast::size`, `to_signed`, `to_unsigned` — the list is generated with the definitions:
+`gen_unfold_truncation_check` in `Gen/Scalar.lean`), runs the straight-line code symbolically and closes the
+remaining case splits with `omega`.
+-/
 open Fcppt Fcppt.Gen in
 macro "c06_trunc" : tactic => `(tactic| (
-    simp only [truncation_check_i16_i16, truncation_check_i16_i16_2, truncation_check_i16_i32, truncation_check_i16_i32_2, truncation_check_i16_i64, truncation_check_i16_i64_2, truncation_check_i16_i8, truncation_check_i16_i8_2, truncation_check_i16_u16, truncation_check_i16_u16_2, truncation_check_i16_u32, truncation_check_i16_u32_2, truncation_check_i16_u64, truncation_check_i16_u64_2, truncation_check_i16_u8, truncation_check_i16_u8_2, truncation_check_i32_i16, truncation_check_i32_i16_2, truncation_check_i32_i32, truncation_check_i32_i32_2, truncation_check_i32_i64, truncation_check_i32_i64_2, truncation_check_i32_i8, truncation_check_i32_i8_2, truncation_check_i32_u16, truncation_check_i32_u16_2, truncation_check_i32_u32, truncation_check_i32_u32_2, truncation_check_i32_u64, truncation_check_i32_u64_2, truncation_check_i32_u8, truncation_check_i32_u8_2, truncation_check_i64_i16, truncation_check_i64_i16_2, truncation_check_i64_i32, truncation_check_i64_i32_2, truncation_check_i64_i64, truncation_check_i64_i64_2, truncation_check_i64_i8, truncation_check_i64_i8_2, truncation_check_i64_u16, truncation_check_i64_u16_2, truncation_check_i64_u32, truncation_check_i64_u32_2, truncation_check_i64_u64, truncation_check_i64_u64_2, truncation_check_i64_u8, truncation_check_i64_u8_2, truncation_check_i8_i16, truncation_check_i8_i16_2, truncation_check_i8_i32, truncation_check_i8_i32_2, truncation_check_i8_i64, truncation_check_i8_i64_2, truncation_check_i8_i8, truncation_check_i8_i8_2, truncation_check_i8_u16, truncation_check_i8_u16_2, truncation_check_i8_u32, truncation_check_i8_u32_2, truncation_check_i8_u64, truncation_check_i8_u64_2, truncation_check_i8_u8, truncation_check_i8_u8_2, truncation_check_u16_i16, truncation_check_u16_i16_2, truncation_check_u16_i32, truncation_check_u16_i32_2, truncation_check_u16_i64, truncation_check_u16_i64_2, truncation_check_u16_i8, truncation_check_u16_i8_2, truncation_check_u16_u16, truncation_check_u16_u16_2, truncation_check_u16_u32, truncation_check_u16_u32_2, truncation_check_u16_u64, truncation_check_u16_u64_2, truncation_check_u16_u8, truncation_check_u16_u8_2, truncation_check_u32_i16, truncation_check_u32_i16_2, truncation_check_u32_i32, truncation_check_u32_i32_2, truncation_check_u32_i64, truncation_check_u32_i64_2, truncation_check_u32_i8, truncation_check_u32_i8_2, truncation_check_u32_u16, truncation_check_u32_u16_2, truncation_check_u32_u32, truncation_check_u32_u32_2, truncation_check_u32_u64, truncation_check_u32_u64_2, truncation_check_u32_u8, truncation_check_u32_u8_2, truncation_check_u64_i16, truncation_check_u64_i16_2, truncation_check_u64_i32, truncation_check_u64_i32_2, truncation_check_u64_i64, truncation_check_u64_i64_2, truncation_check_u64_i8, truncation_check_u64_i8_2, truncation_check_u64_u16, truncation_check_u64_u16_2, truncation_check_u64_u32, truncation_check_u64_u32_2, truncation_check_u64_u64, truncation_check_u64_u64_2, truncation_check_u64_u8, truncation_check_u64_u8_2, truncation_check_u8_i16, truncation_check_u8_i16_2, truncation_check_u8_i32, truncation_check_u8_i32_2, truncation_check_u8_i64, truncation_check_u8_i64_2, truncation_check_u8_i8, truncation_check_u8_i8_2, truncation_check_u8_u16, truncation_check_u8_u16_2, truncation_check_u8_u32, truncation_check_u8_u32_2, truncation_check_u8_u64, truncation_check_u8_u64_2, truncation_check_u8_u8, truncation_check_u8_u8_2]
+    gen_unfold_truncation_check
     c06_norm
     c06_finish))
